@@ -168,6 +168,41 @@ def check(P, R, tier):
         if (row[0], row[1], row[2]) not in matched:
             raise AnalysisBroken("RF7a: listed environment source %s->%s(%s) not found; table out of date" % row[:3])
     R.floor("RF7a", "environment call sites", nsites, 6)
+    # ---------------------------------------------------------------- RF7a-opt: each locale option reaches its own side, whatever else is given
+    import re as _re
+    PAIR = {"setilocale": "from_locale_arg", "setflocale": "locale_arg"}
+    nopt = 0
+    for fn in P.all_functions():
+        if fn.name != "main" or not fn.file.startswith("src/") and "/src/" not in fn.file:
+            continue
+        for n in fn.calls():
+            nm = n.get("callee")
+            if nm not in PAIR:
+                continue
+            args = call_args(n)
+            a0 = strip(args[0]) if args else None
+            if a0 is None or a0.get("k") != "MemberExpr":
+                continue        # the reset at the end of the run (NULL) is judged by RF7b's pairing
+            nopt += 1
+            passed = a0.get("n") or a0.get("member") or ""
+            if not passed:
+                m_ = _re.search(r"(\w+)\s*$", expr_text(a0))
+                passed = m_.group(1) if m_ else ""
+            gs = [g for g in guards_of(fn, n) if "pol" in g]
+            opts = set()
+            for g in gs:
+                opts |= set(_re.findall(r"\b(\w+_(?:arg|flag|nargs|args))\b", expr_text(strip(g["cond"]))))
+            site = "%s: %s(%s)" % (fn.file, nm, passed)
+            if passed != PAIR[nm]:
+                R.finding("RF7a-opt", fn, site, "%s installs the %s side of the name tables and is handed the value of `%s`; the option "
+                          "for that side is `%s`" % (nm, "input" if nm == "setilocale" else "output", passed, PAIR[nm]), n)
+            elif (opts & set(PAIR.values())) - {passed}:
+                R.finding("RF7a-opt", fn, site, "the locale option `%s` is applied only depending on %s: given together, one option "
+                          "switches the other off, so an option of the other direction changes this one's" %
+                          (passed, ", ".join("`%s`" % o for o in sorted((opts & set(PAIR.values())) - {passed}))), n)
+            else:
+                R.ob("RF7a-opt", "%s: no test of the other direction's locale option on the way to it" % site, True)
+    R.floor("RF7a-opt", "locale options applied in the tools' main()", nopt, 13)
     for u, why in EXEMPT_UNITS.items():
         R.exceptions.append("unit %s exempt: %s" % (u, why))
     # exempt unit must stay isolated: nothing it defines is called from elsewhere
